@@ -113,8 +113,12 @@ class FnFlow:
         return ops, tainted
 
 
+_TRANSPARENT_OWNERS = ("core::option::Option", "core::result::Result", "(tuple)", "?")
+
+
 def _fields_in(pl):
-    return place_fields(pl)
+    """field projections of a place, ignoring std wrapper enums and tuples (`(self.x as Some).0` is `self.x`)"""
+    return [f for f in place_fields(pl) if not f[1].startswith(_TRANSPARENT_OWNERS)]
 
 
 def own_accesses(P, fn, flow=None):
@@ -187,8 +191,12 @@ def own_accesses(P, fn, flow=None):
 
 
 def _opname(o):
-    c = o["resolved"] or o["callee"]
-    return c.split("::")[-1] if not c.startswith("<") else c.rsplit("::", 1)[-1]
+    """full callee path of a forward op (resolved impl when rustc resolved it)"""
+    return o["resolved"] if (o["resolved"] and o["rk"] in ("item", "closure_once")) else o["callee"]
+
+
+def opshort(c):
+    return c.rsplit("::", 1)[-1]
 
 
 def classify_ref_use(P, ops, mut):
@@ -261,17 +269,68 @@ class Effects:
             a = self.own[fn.id] = own_accesses(self.P, fn, self.flow(fn))
         return a
 
+    def mutators(self):
+        """fn ids that (transitively) write state owned by their own `impl Self` type - used to decide
+        whether handing `&self.field` to a component method is a write of that field"""
+        if getattr(self, "_mut", None) is not None:
+            return self._mut
+        P = self.P
+        M = set()
+        cand = [f for f in P.fns.values() if f.kind != "closure" and f.impl_self]
+        changed = True
+        while changed:
+            changed = False
+            for f in cand:
+                if f.id in M:
+                    continue
+                hit = False
+                for g in P.family(f):
+                    for a in self.own_acc(g):
+                        if a.cell[0] != f.impl_self:
+                            continue
+                        if a.kind in ("W", "RMW", "LOCK_W") and a.how != "via":
+                            hit = True
+                        elif a.kind == "PASS" and any(o in M for o in a.ops):
+                            hit = True
+                        elif a.kind in ("W", "LOCK_W") and a.how == "via":
+                            hit = True
+                        if hit:
+                            break
+                    if hit:
+                        break
+                    for bi, t in g.calls():
+                        r = t["r"] if t["rk"] == "item" else None
+                        if r in M and P.fns[r].impl_self == f.impl_self:
+                            hit = True
+                            break
+                    if hit:
+                        break
+                if hit:
+                    M.add(f.id)
+                    changed = True
+        self._mut = M
+        return M
+
+    def is_write(self, a):
+        if a.kind in ("W", "RMW", "LOCK_W"):
+            return True
+        if a.kind == "PASS":
+            M = self.mutators()
+            return any(o in M for o in a.ops)
+        return False
+
     def writes_own(self, fn):
-        """cells written directly by fn: kind in W/RMW/LOCK_W (a write lock counts as a write)"""
-        return {a.cell for a in self.own_acc(fn) if a.kind in ("W", "RMW", "LOCK_W")}
+        """cells written directly by fn: W/RMW/LOCK_W (a write lock counts as a write) and PASS of the
+        cell to a component method that mutates its receiver"""
+        return {a.cell for a in self.own_acc(fn) if self.is_write(a)}
 
     def reads_own(self, fn):
         return {a.cell for a in self.own_acc(fn) if a.kind in ("R", "RMW", "LOCK_R", "LOCK_W", "PASS")}
 
-    def closure_sets(self, roots, stop=None):
+    def closure_sets(self, roots, stop=None, edge_filter=None):
         """(W*, R*) over everything reachable from roots"""
         W, R = set(), set()
-        for fid in self.P.reach(roots, stop=stop):
+        for fid in self.P.reach(roots, stop=stop, edge_filter=edge_filter):
             fn = self.P.fns[fid]
             W |= self.writes_own(fn)
             R |= self.reads_own(fn)
@@ -283,7 +342,7 @@ class Effects:
             if within is not None and fid not in within:
                 continue
             for a in self.own_acc(fn):
-                if a.cell == cell and a.kind in ("W", "RMW", "LOCK_W"):
+                if a.cell == cell and self.is_write(a):
                     out.append(a)
         return out
 
